@@ -7,6 +7,7 @@ import (
 	"go/types"
 	"sort"
 	"strings"
+	"time"
 
 	"govc/smt"
 
@@ -21,18 +22,20 @@ type Config struct {
 	// Modular: callee functions whose contract (not body) is used at call sites.
 	Modular map[*ssa.Function]bool
 	// Abstract: callee functions replaced by "fresh results, declared havoc" without contract.
-	Abstract     map[string]*AbstractSpec
-	DefaultBound int
-	Bounds       map[string]int // leaf-name suffix -> bound
-	MaxDepth     int
-	MaxBlockVis  int
-	IfaceContracts map[string]*Contract // "IfaceName.Method" -> contract
-	Resolver     func(iface types.Type, method string) *ssa.Function
-	Debug        bool
-	IfaceFrame   func(itype types.Type, method string) (effects []string, impls int)
+	Abstract        map[string]*AbstractSpec
+	DefaultBound    int
+	Bounds          map[string]int // leaf-name suffix -> bound
+	MaxDepth        int
+	MaxBlockVis     int
+	IfaceContracts  map[string]*Contract // "IfaceName.Method" -> contract
+	Resolver        func(iface types.Type, method string) *ssa.Function
+	Debug           bool
+	IfaceFrame      func(itype types.Type, method string) (effects []string, impls int)
+	Deadline        time.Time // wall-clock budget of the function being explored
+	FuncBudget      time.Duration
 	StrictExternals bool // abort instead of havoc on unmodelled externals
-	DecAbstract  bool // two-symbolic-operand Dec products/quotients become uninterpreted with sign/zero/unit facts
-	EnvRef       *Env
+	DecAbstract     bool // two-symbolic-operand Dec products/quotients become uninterpreted with sign/zero/unit facts
+	EnvRef          *Env
 	// LoopInv: loop-header block invariants of the function under contract (by header index)
 	OnUnsupported func(what string)
 }
@@ -48,46 +51,56 @@ type abortErr struct{ msg string }
 type panicOut struct{ msg string }
 type infeasible struct{}
 
+// SupplyEvent is one bank mint or burn performed on the path.
+type SupplyEvent struct {
+	Kind   string // "mint" | "burn"
+	Coins  Val
+	Module *smt.Term
+	Pos    string
+}
+
 // Oblig is one proof obligation produced on one path.
 type Oblig struct {
 	Cover bool // reachability check: satisfiable (not valid) is the expected answer
-	Name string
-	Hyps []*smt.Term
-	Goal *smt.Term
-	Path string // decision string
-	Note string
+	Name  string
+	Hyps  []*smt.Term
+	Goal  *smt.Term
+	Path  string // decision string
+	Note  string
 }
 
 // Exec is the state of one path.
 type Exec struct {
-	Cfg       *Config
-	dec       []int
-	pos       int
-	pending   *[][]int
-	pc        []*smt.Term
-	fresh     int
-	worldBase string
-	stack     []*ssa.Function
-	Obligs    []*Oblig
-	Bounded   map[string]int // materialisation bounds applied on this path
-	lenChoice map[string]int
-	globals   map[*ssa.Global]*Cell
-	Trace     []string
-	siteCount map[string]int
-	inSpec    int // >0 while evaluating a specification expression
-	recovering []*frame
-	Calls     []string // log of notable call events on this path (mint/burn/send sites etc.)
-	rowInvDone map[string]bool
-	opaqueSeen map[string]bool       // lazy collections read opaquely during the current spec evaluation
-	opaqueRedo map[string][]func()   // assumptions to re-evaluate when a collection is revealed
-	forceMemo map[*LazyV]Val
-	sliceMemo map[*LazyV]*SliceV
+	Cfg           *Config
+	dec           []int
+	pos           int
+	pending       *[][]int
+	pc            []*smt.Term
+	fresh         int
+	worldBase     string
+	stack         []*ssa.Function
+	Obligs        []*Oblig
+	Bounded       map[string]int // materialisation bounds applied on this path
+	lenChoice     map[string]int
+	globals       map[*ssa.Global]*Cell
+	Trace         []string
+	siteCount     map[string]int
+	inSpec        int // >0 while evaluating a specification expression
+	recovering    []*frame
+	Calls         []string // log of notable call events on this path (mint/burn/send sites etc.)
+	rowInvDone    map[string]bool
+	opaqueSeen    map[string]bool     // lazy collections read opaquely during the current spec evaluation
+	opaqueRedo    map[string][]func() // assumptions to re-evaluate when a collection is revealed
+	forceMemo     map[*LazyV]Val
+	sliceMemo     map[*LazyV]*SliceV
 	UsedContracts map[string]bool
-	callResults map[string]tval
-	specArith bool
-	TopKey    string
-	Externals map[string]bool
-	TopForalls []*smt.Term
+	SupplyEvents  []SupplyEvent
+	callResults   map[string]tval
+	steps         int
+	specArith     bool
+	TopKey        string
+	Externals     map[string]bool
+	TopForalls    []*smt.Term
 }
 
 func (ex *Exec) abort(format string, a ...interface{}) {
@@ -799,6 +812,10 @@ func (ex *Exec) runBlocks(fr *frame) (result Val) {
 func (ex *Exec) runFrom(fr *frame, block, prev *ssa.BasicBlock) Val {
 	for {
 		fr.visits[block]++
+		ex.steps++
+		if ex.steps&1023 == 0 && !ex.Cfg.Deadline.IsZero() && time.Now().After(ex.Cfg.Deadline) {
+			ex.abort("time budget of this function exhausted")
+		}
 		if fr.visits[block] > ex.Cfg.MaxBlockVis {
 			ex.abort("loop bound exceeded in %s block %d", fr.fn, block.Index)
 		}
@@ -1143,6 +1160,18 @@ func (ex *Exec) sliceOp(fr *frame, ins *ssa.Slice) Val {
 }
 
 func (ex *Exec) retype(v Val, t types.Type) Val {
+	if b, ok := v.(*BytesV); ok && isAccAddr(t) {
+		if b.Tag == "addr" && len(b.Args) == 1 {
+			return b.Args[0]
+		}
+		if strings.HasPrefix(b.Tag, "lit:") {
+			return smt.Lit("addrbytes:"+b.Tag, smt.Addr)
+		}
+		return smt.App("addr!"+b.Tag, smt.Addr, b.Args...)
+	}
+	if t2, ok := v.(*smt.Term); ok && t2.Sort == smt.Addr && isByteSlice(t) && !isAccAddr(t) {
+		return &BytesV{Tag: "addr", Args: []*smt.Term{t2}}
+	}
 	switch x := v.(type) {
 	case *SliceV:
 		c := *x
